@@ -1,7 +1,7 @@
 ---------------------------- MODULE Trace_Spell ----------------------------
 (* impl -> spec for C08: each line holds two real parses of two spellings of one
    intended invocation: {d, a, b, obsA, obsB, same (ArgMatches PartialEq of the two
-   real results), amb}.  The property is judged on the two real observations. *)
+   real results), amb, noidx (the observations were taken up to argument indices)}.  The property is judged on the two real observations. *)
 EXTENDS Props, Json, IOUtils
 
 Defs == ndJsonDeserialize(IOEnv.DEFS)
@@ -15,7 +15,7 @@ Verdict(r) ==
   ELSE IF r.obsA.outcome # r.obsB.outcome THEN "C08-outcome-differs"
   ELSE IF r.obsA.outcome = "Ok" /\ ~r.same THEN "C08-matches-not-equal"
   ELSE IF r.amb /\ r.obsB.outcome # "Err" THEN "C08-ambiguous-prefix-resolved"
-  ELSE IF ~ObsEq(r.obsB, Run(def, r.b)) THEN "model"
+  ELSE IF ~ObsEq(r.obsB, IF r.noidx THEN StripIdx(Run(def, r.b)) ELSE Run(def, r.b)) THEN "model"
   ELSE "ok"
 
 Init == l = 1
